@@ -569,7 +569,7 @@ fn check_conv(item: &str, _ctx: &Ctx) -> Outcome {
 pub fn property() -> Property {
     Property {
         id: "C08",
-        rule: "Cases: (a) every one of the 65536 Integers through unary minus, ABS, NOT, CINT(CSNG), CINT(CDBL), SGN, FIX, INT, 0-x; \
+        rule: "Cases: (literal forms also with both constants padded with zeros to 6 and 7 digits) (a) every one of the 65536 Integers through unary minus, ABS, NOT, CINT(CSNG), CINT(CDBL), SGN, FIX, INT, 0-x; \
 (b) all ordered pairs of a 53-value boundary set (limits, powers of two, sqrt(32768) neighbours, 24 pseudo-random) through + - * \\ MOD ^ \
 in variable, assignment and literal form; (c) proptest-generated random operand pairs over the full range; (d) Single and Double values at \
 k +- {0,2^-20,..,1} around -32769..32769, +-65536, 1e9, NaN, +-inf, through A%=x, CINT, \\, MOD, OR, array subscript, ON. \
